@@ -25,50 +25,70 @@ func TestVerifBreakerHandlerStatuses(t *testing.T) {
 	vrt.RunOnce(vrt.Options{Name: "breakerhandler"}, func(r *vrt.Run) {
 		vrt.SetRandHook(func() (int64, bool) { return 0, true })
 		modes := []string{"explicit", "implicit200", "write-only"}
-		for code := 100; code <= 599; code++ {
-			for _, mode := range modes {
-				if mode != "explicit" && code != 200 {
-					continue
-				}
-				if code < 200 && code != 101 {
-					// 1xx informational headers are not final statuses for httptest's recorder; 101 is
-					continue
-				}
-				ran := 0
-				probe := false
-				h := BreakerHandler(http.MethodGet, fmt.Sprintf("/p%d%s", code, mode), stat.NewMetrics("verif"))(http.HandlerFunc(func(w http.ResponseWriter, req *http.Request) {
-					ran++
-					if probe {
-						return
+		// what another route served just before (the classification of a route's responses
+		// must not depend on any other request the process has handled)
+		priors := []string{"none", "500", "503", "200", "write-only", "nothing"}
+		for _, prior := range priors {
+			for code := 100; code <= 599; code++ {
+				for _, mode := range modes {
+					if mode != "explicit" && code != 200 {
+						continue
 					}
-					switch mode {
-					case "explicit":
-						w.WriteHeader(code)
-					case "write-only":
-						w.Write([]byte("x"))
+					if code < 200 && code != 101 {
+						// 1xx informational headers are not final statuses for httptest's recorder; 101 is
+						continue
 					}
-				}))
-				for i := 0; i < 8; i++ {
+					if prior != "none" {
+						other := BreakerHandler(http.MethodGet, fmt.Sprintf("/other%d%s%s", code, mode, prior), stat.NewMetrics("verif"))(http.HandlerFunc(func(w http.ResponseWriter, req *http.Request) {
+							switch prior {
+							case "500":
+								w.WriteHeader(500)
+							case "503":
+								w.WriteHeader(503)
+							case "200":
+								w.WriteHeader(200)
+							case "write-only":
+								w.Write([]byte("y"))
+							}
+						}))
+						other.ServeHTTP(httptest.NewRecorder(), httptest.NewRequest(http.MethodGet, "/", nil))
+					}
+					ran := 0
+					probe := false
+					h := BreakerHandler(http.MethodGet, fmt.Sprintf("/p%d%s%s", code, mode, prior), stat.NewMetrics("verif"))(http.HandlerFunc(func(w http.ResponseWriter, req *http.Request) {
+						ran++
+						if probe {
+							return
+						}
+						switch mode {
+						case "explicit":
+							w.WriteHeader(code)
+						case "write-only":
+							w.Write([]byte("x"))
+						}
+					}))
+					for i := 0; i < 8; i++ {
+						rec := httptest.NewRecorder()
+						h.ServeHTTP(rec, httptest.NewRequest(http.MethodGet, "/", nil))
+					}
+					loaded := ran
+					probe = true
 					rec := httptest.NewRecorder()
 					h.ServeHTTP(rec, httptest.NewRequest(http.MethodGet, "/", nil))
-				}
-				loaded := ran
-				probe = true
-				rec := httptest.NewRecorder()
-				h.ServeHTTP(rec, httptest.NewRequest(http.MethodGet, "/", nil))
-				admitted := ran == loaded+1
-				benign := code < 500
-				c.Eval(fmt.Sprintf("%dxx/%s/admitted=%v", code/100, mode, admitted), func() any {
-					return map[string]any{"status": code, "mode": mode, "loaded": loaded, "probe_admitted": admitted, "probe_status": rec.Code}
-				})
-				if admitted != benign {
-					c.Violation(fmt.Sprintf("status=%d mode=%s", code, mode), "status classification", fmt.Sprintf("8 responses with status %d (%s), probe admitted=%v, want %v", code, mode, admitted, benign))
-				}
-				if !admitted && rec.Code != http.StatusServiceUnavailable {
-					c.Violation(fmt.Sprintf("status=%d mode=%s", code, mode), "rejected status", fmt.Sprintf("rejected probe answered %d, want 503", rec.Code))
-				}
-				if loaded != 8 && benign {
-					c.Violation(fmt.Sprintf("status=%d mode=%s", code, mode), "benign rejected", fmt.Sprintf("only %d of 8 benign requests reached the handler", loaded))
+					admitted := ran == loaded+1
+					benign := code < 500
+					c.Eval(fmt.Sprintf("prior=%s/%dxx/%s/admitted=%v", prior, code/100, mode, admitted), func() any {
+						return map[string]any{"other_route_before": prior, "status": code, "mode": mode, "loaded": loaded, "probe_admitted": admitted, "probe_status": rec.Code}
+					})
+					if admitted != benign {
+						c.Violation(fmt.Sprintf("status=%d mode=%s other-route-before=%s", code, mode, prior), "status classification", fmt.Sprintf("8 responses with status %d (%s), probe admitted=%v, want %v", code, mode, admitted, benign))
+					}
+					if !admitted && rec.Code != http.StatusServiceUnavailable {
+						c.Violation(fmt.Sprintf("status=%d mode=%s other-route-before=%s", code, mode, prior), "rejected status", fmt.Sprintf("rejected probe answered %d, want 503", rec.Code))
+					}
+					if loaded != 8 && benign {
+						c.Violation(fmt.Sprintf("status=%d mode=%s other-route-before=%s", code, mode, prior), "benign rejected", fmt.Sprintf("only %d of 8 benign requests reached the handler", loaded))
+					}
 				}
 			}
 		}
